@@ -41,6 +41,10 @@ TRUSTED = [
     'the scope helpers are swept with deterministic replace / remove / send on every node they yield (walrus targets, first '
     'iterators, defaults, decorators, bases, annotations, type parameters), all in {False, True, Name}, both directions, '
     'oracle: an FST instance, alive, in the tree, no repeat, no exception',
+    'an in-place kind switch of a parent (Try <-> TryStar after all handlers were replaced: a fresh AST adopts the existing '
+    'children under the same FST) is, like the BoolOp collapse, outside the contract Mut: such histories are contract-exempt, '
+    'yields are still compared and the oracle requires the replacement\'s children to be walked next (judged on the node '
+    'replace() returned, not on the old FST) and the children of an untouched node to be walked after a sibling edit',
     'not modelled: scope=True (_ScopeContext; exercised by the sweep only, observationally compared on list programs where it '
     'must not change anything), asts=, the f.a->None `None` entries of syntax_ordered_children, source text and positions '
     '(the final-tree oracle covers them per run), cut / raw operations (documented as unsupported or lossy during a walk)',
@@ -774,7 +778,8 @@ def scope_cases(quick=False):
 CATALOGUE = [
     'raise X from Y', 'raise X(a) from Y.b',
     'try:\n    a\nexcept E as n:\n    b\nexcept (F, G):\n    c\nelse:\n    d\nfinally:\n    e\n',
-    'try:\n    a\nfinally:\n    b\n',
+    'try:\n    a\nfinally:\n    b\n', 'try:\n    a\nexcept E as n:\n    b\n    c\nfinally:\n    e\n    g\n',
+    'try:\n    a\nexcept* E as n:\n    b\n    c\n', 'try:\n    a\nexcept* E:\n    b\nexcept* F:\n    c\nfinally:\n    d\n',
     '@d1\n@d2(x)\ndef f(a, b=1, *c, d: int = 2, **e) -> r:\n    return a\n',
     '@d1\nclass C(B1, B2, k=v):\n    x = 1\n',
     'x = {a: b, **c, d: e}', 'f(a, *b, k=v, **kw)', 'with a as b, c as d:\n    pass\n', 'with (a as b):\n    x\n    y\n',
@@ -804,7 +809,8 @@ def catalogue_cases(quick=False):
                 if quick and back and on != 'enter':
                     continue
                 for k in range(min(n, 10 if quick else 14) * (2 if on == 'both' else 1)):
-                    for acts in ([['remove', 'cur']], [['replace', 'cur', 'zz']], [['remove', 'next']], [['remove', 'prev']])[:3 if quick else 4]:
+                    for acts in ([['remove', 'cur']], [['replace', 'cur', '@kind']], [['remove', 'next']], [['replace', 'prev', '@kind']],
+                                 [['replace', 'next', '@kind']], [['replace', 'cur', 'zz']], [['remove', 'prev']])[:5 if quick else 7]:
                         out.append(dict(on=on, back=back, recurse=True, self_=True, src=src, wroot=[], script=[[k, acts]],
                                         all='F', mode='exec'))
     return out
